@@ -89,3 +89,14 @@ def _gh_constant(case, res):
     ns = case.get('ns', 0)
     const = all(len(set(o[i] for o in case.get('outs', []))) == 1 for i in range(ns))
     return case.get('cls') == 'PID_GH' and 'UnboundLocalError' in msg and const
+
+
+@predicate('ccs-near-sign-change')
+def _ccs_sign(case, res):
+    """I_ccs sums pointwise co-information over the events where the SIGNS of several pointwise terms agree, on a
+    numerically optimised maximum-entropy distribution; when one of those terms is within optimiser noise of 0 the sum
+    jumps, so permuting the sources (a different optimiser run) changes the value."""
+    msg = (res.oracle_fail or '')
+    return (case.get('cls') == 'PID_CCS' and msg.startswith('permuting the sources')
+            and str(res.site).endswith('near-sign-change')
+            and (res.detail or {}).get('ccs_min_pointwise_term', 1.0) < 5e-3)
